@@ -256,7 +256,7 @@ fn run(ctx: &WorkerCtx) -> WorkerReport {
 pub fn def() -> PropDef {
     PropDef {
         id: "C04",
-        rule: "name/path strings assembled from the component alphabet {.., ., empty, a, sub, ..x, x.., space, ..., and backslash-separated climbs such as ..\\bs} joined by / or //, optionally absolute (absolute ones point into a per-worker canary directory), for single-file and multi-file torrents with a small valid payload; the real Extractor runs in <private root>/c/l1/l2. Oracle: recursive listing (names, sizes) of the private root outside the cwd is unchanged whether extraction reports Done or Fail; for multi-file torrents with a plain name every created entry is inside ./<name>/. Refusing and neutralising are both accepted. Non-trivial = some name/path has a `..` or is absolute; distinct by hash of the case.",
+        rule: "name/path strings assembled from the component alphabet {.., ., empty, a, sub, ..x, x.., space, ..., and backslash-separated climbs such as ..\\bs} joined by / or //, optionally absolute (absolute ones point into a per-worker canary directory), for single-file and multi-file torrents (0-3 file entries: a multi-file torrent without entries still has a name) with a small valid payload; the real Extractor runs in <private root>/c/l1/l2. Oracle: recursive listing (names, sizes) of the private root outside the cwd is unchanged whether extraction reports Done or Fail; for multi-file torrents with a plain name every created entry is inside ./<name>/. Refusing and neutralising are both accepted. Non-trivial = some name/path has a `..` or is absolute; distinct by hash of the case.",
         assumptions: &[
             "the number of `..` components per resulting path is capped at the depth of the cwd below the worker's private root (3), so that every escape lands where the oracle looks",
             "symlinks already present in the download directory are out of scope (the property speaks about names and paths in the metainfo)",
@@ -266,7 +266,7 @@ pub fn def() -> PropDef {
             cases: |t| t.pick(20_000, 300_000),
             run,
             replay: |v| replay_case::<Case>(v, check),
-            min_class: &[("hostile-path", 0.2981), ("hostile-name", 0.1), ("absolute", 0.1), ("dotdot-after-normal-component", 0.1), ("backslash-component", 0.15)],
+            min_class: &[("hostile-path", 0.2981), ("hostile-name", 0.1), ("absolute", 0.1), ("dotdot-after-normal-component", 0.1), ("backslash-component", 0.15), ("multi-file-without-entries", 0.025)],
         }],
     }
 }
